@@ -6,6 +6,11 @@ use pocket_db::{ScreenResult, Store};
 use pocket_types::{Addr, Id, Kind, OwnedEvent, Pubkey};
 use std::collections::HashMap;
 
+/// an id as shown in query answers: its first and its last four bytes (ids may share long prefixes)
+pub fn id_abbrev(id: &[u8]) -> String {
+    format!("{}{}", hex(&id[..4]), hex(&id[id.len() - 4..]))
+}
+
 pub fn fnv(b: &[u8]) -> String {
     let mut h: u32 = 0x811c9dc5;
     for x in b {
@@ -127,7 +132,7 @@ impl Hist {
                 });
                 match r {
                     Ok((evs, red)) => {
-                        let ids: Vec<String> = evs.iter().map(|e| hex(&e.id().as_slice()[..4])).collect();
+                        let ids: Vec<String> = evs.iter().map(|e| id_abbrev(e.id().as_slice())).collect();
                         format!("ok [{}] red={}", ids.join(","), red)
                     }
                     Err(e) => format!("err:{}", db_err(&e)),
@@ -205,6 +210,32 @@ impl Hist {
                         format!("ok bak={}", bak1 && bak2)
                     }
                     Err(e) => format!("err:{}", db_err(&e)),
+                }
+            }
+            // C16: rebuild called by a user who is neither root nor the owner of the files but may write to the directory
+            // (effective uid switched around the call).  The refusal must leave everything as it was: the handle is consumed
+            // by rebuild, so the store is reopened from what is on disk afterwards.
+            "rebuildas" => {
+                let uid = t.n() as u32;
+                use std::os::unix::fs::PermissionsExt;
+                let _ = std::fs::set_permissions(self.dir.path(), std::fs::Permissions::from_mode(0o777));
+                let s = self.store.take().unwrap();
+                unsafe { libc::seteuid(uid) };
+                let r = unsafe { s.rebuild() };
+                unsafe { libc::seteuid(0) };
+                match r {
+                    Ok(s) => {
+                        self.store = Some(s);
+                        self.offsets.clear();
+                        "ok".to_string()
+                    }
+                    Err(e) => match Store::new(self.dir.path(), self.names.clone()) {
+                        Ok(s2) => {
+                            self.store = Some(s2);
+                            format!("refused:{} reopened", db_err(&e))
+                        }
+                        Err(e2) => format!("refused:{} reopen-err:{}", db_err(&e), db_err(&e2)),
+                    },
                 }
             }
             "xput" => {
@@ -1022,7 +1053,7 @@ fn conc_op(st: &Store, _names: &[&'static str], t: &mut Toks) -> String {
             match st.find_events(&fo, allow, lim, secs, |_| ScreenResult::Match) {
                 Ok((evs, red)) => {
                     // every returned reference must be readable in full
-                    let ids: Vec<String> = evs.iter().map(|e| format!("{}", hex(&e.id().as_slice()[..4]))).collect();
+                    let ids: Vec<String> = evs.iter().map(|e| id_abbrev(e.id().as_slice())).collect();
                     let intact = evs.iter().all(|e| e.as_bytes().len() >= 152 && e.tags().is_ok());
                     format!("ok [{}] red={}{}", ids.join(","), red, if intact { "" } else { " TORN" })
                 }
